@@ -227,6 +227,14 @@ func c01Templates() []string {
 		`str = "xyz"; f = func() {r = ""; for c = str {r = c + r}; r}; println(f())`,
 		`println(for 0 {1}, for i = 0 {1}, catch(for -1 {1}).err, catch(for "a" {1}).err, catch(for 1.5 {1}).err)`,
 	)
+	// a function called again after something it depends on was rebound in every possible way (the result must be recomputed)
+	for _, change := range []string{"f = x => x * 11", "f := x => x * 11", "del(f); f = x => x * 11", "func f(x) {x * 11}", "set = func() {f = x => x * 11}; set()",
+		"set = func() {old = f; f = x => old(x) * 11; old(0)}; set()", "k = 5", "k := 5", "k++", "set = func() {k = 5}; set()", "set = func() {t = k; k = t + 4; t}; set()"} {
+		t = append(t, fmt.Sprintf(`k = 1; f = x => x + 1; g = x => [f(x), f(x + k)]; println(g(1)); %s; println(g(1), g(1))`, change))
+		t = append(t, fmt.Sprintf(`k = 1; f = x => x + 1; g = x => f(x) * 2; a = g(1); %s; b = g(1); println(a, b, g(1), g(2))`, change))
+		t = append(t, fmt.Sprintf(`k = 1; func f(x) {x + 1}; func g(x) {f(x) * 2}; println(g(1)); %s; println(g(1))`, change))
+		t = append(t, fmt.Sprintf(`k = 1; f = x => x + 1; g = x => [f(x), f(x + k)]; h = func(n) {r = []; for i = n {r = r + g(i)}; r}; println(h(2)); %s; println(h(2))`, change))
+	}
 	// comparison, equality and map-key use of containers NESTING values on both sides of the size thresholds (a small array
 	// holding a large array, a large map, a function ...): every representation pair must compare structurally
 	inner := []string{"[1, 2, 3, 4, 5, 6, 7, 8, 9]", "0:9", "{1: 1, 2: 2, 3: 3, 4: 4, 5: 5}", "(x => x)", "[0:9]", "{1: 0:9}", "[1, 2]", "{1: 1}", `"s"`, "1.5", "nil", "[]", "{}", "[(x => x), 0:9]"}
